@@ -539,10 +539,15 @@ func writeEvidence(verifDir, id, tier string, seed int, results []*gosym.Harness
 			"z3 4.8.12 answers are trusted (any error/unknown makes the run inconclusive)",
 		},
 	}
-	os.MkdirAll(filepath.Join(verifDir, "evidence"), 0o755)
+	evidenceDir := filepath.Join(verifDir, "evidence")
+	if d := os.Getenv("VERIF_EVIDENCE_DIR"); d != "" {
+		// experiments on modified trees (seeded changes) write their evidence elsewhere
+		evidenceDir = d
+	}
+	os.MkdirAll(evidenceDir, 0o755)
 	name := id + ".json"
 	if partialRun {
 		name = id + ".partial.json" // development runs (--harness / --no-replay) never overwrite the evidence
 	}
-	writeJSON(filepath.Join(verifDir, "evidence", name), ev)
+	writeJSON(filepath.Join(evidenceDir, name), ev)
 }
